@@ -9,6 +9,7 @@ import (
 
 	ipfslog "berty.tech/go-ipfs-log"
 	"berty.tech/go-ipfs-log/iface"
+	"berty.tech/go-orbit-db/verifhook"
 	cid "github.com/ipfs/go-cid"
 	"github.com/libp2p/go-libp2p/core/event"
 	"github.com/libp2p/go-libp2p/p2p/host/eventbus"
@@ -150,6 +151,9 @@ func (r *replicator) GetQueue() []cid.Cid {
 }
 
 func (r *replicator) Load(ctx context.Context, entries []ipfslog.Entry) {
+	verifhook.Begin("repl.load")
+	defer verifhook.End("repl.load")
+	verifhook.SpawnDone(ctx)
 	cidsStrings := make([]string, len(entries))
 	for i, e := range entries {
 		cidsStrings[i] = e.GetHash().String()
@@ -266,6 +270,7 @@ func (r *replicator) processHash(ctx context.Context, item processItem) ([]cid.C
 		}
 	}()
 
+	verifhook.Point("repl.before-fetch", r, ctx, hash)
 	l, err := ipfslog.NewFromEntryHash(ctx, r.store.IPFS(), r.store.Identity(), hash, &ipfslog.LogOptions{
 		ID:               r.store.OpLog().GetID(),
 		AccessController: r.store.AccessController(),
@@ -277,6 +282,7 @@ func (r *replicator) processHash(ctx context.Context, item processItem) ([]cid.C
 		ShouldExclude: r.shouldExclude,
 	})
 
+	verifhook.Point("repl.after-fetch", r, ctx, hash, err)
 	if err != nil {
 		return nil, fmt.Errorf("unable to fetch log: %w", err)
 	}
@@ -317,6 +323,7 @@ func (r *replicator) generateEmitter(bus event.Bus) error {
 }
 
 func (r *replicator) waitForProcessSlot(ctx context.Context) (e processItem, err error) {
+	verifhook.Point("repl.before-slot", r, ctx)
 	if err := r.sem.Acquire(ctx, 1); err != nil {
 		return nil, fmt.Errorf("failed to acquire process slot: %w", err)
 	}
@@ -328,10 +335,12 @@ func (r *replicator) waitForProcessSlot(ctx context.Context) (e processItem, err
 	r.tasks[e.GetHash()] = stateFetching
 
 	r.muProcess.Unlock()
+	verifhook.Point("repl.after-dequeue", r, ctx, e.GetHash())
 	return
 }
 
 func (r *replicator) processEntryDone(item processItem) {
+	verifhook.Point("repl.before-done", r, item.GetHash())
 	r.muProcess.Lock()
 
 	r.taskInProgress--
@@ -411,6 +420,7 @@ func (r *replicator) isIdle() bool {
 
 // idle is not thread safe
 func (r *replicator) idle() {
+	verifhook.Point("repl.load-end", r)
 	r.muBuffer.Lock()
 
 	if len(r.buffer) > 0 {
